@@ -56,10 +56,10 @@ func structuralCorpus(e *core.Env, n int, mod func(i int, o *pgen.StructOpts)) [
 
 // pipeline runs cases through goverter, compiles and executes them.
 type pipeline struct {
-	Coverage  map[string]string
-	Mod       *core.Module
-	Dropped   []string
-	BatchErr  error
+	Coverage map[string]string
+	Mod      *core.Module
+	Dropped  []string
+	BatchErr error
 }
 
 type pipeOpts struct {
